@@ -56,12 +56,15 @@ def case_key(case):
 
 
 def load_known(pid):
-    path = os.path.join(VERIF, "known_findings.json")
-    if not os.path.exists(path):
-        return []
-    with open(path) as f:
-        data = json.load(f)
-    return [e for e in data.get("findings", []) if e.get("status") == "open" and pid in ([e.get("property")] + e.get("also", []))]
+    import glob
+    entries = []
+    for path in [os.path.join(VERIF, "known_findings.json")] + sorted(glob.glob(os.path.join(VERIF, "known_findings.d", "*.json"))):
+        if not os.path.exists(path):
+            continue
+        with open(path) as f:
+            data = json.load(f)
+        entries.extend(data.get("findings", []))
+    return [e for e in entries if e.get("status") == "open" and pid in ([e.get("property")] + e.get("also", []))]
 
 
 def match_known(sig, known):
